@@ -1,4 +1,4 @@
-import SgModel.Lemmas.CyW
+import SgModel.Lemmas.CyWParam
 /-!
 # C35 — parameterised queries never answer differently from inlined literals
 
@@ -19,23 +19,6 @@ Statement level (`Stmt.substVisited` vs `Stmt.inline` under `exec`) is **not** p
 comment at the end; it is compared differentially by `harness/src/bin/c35.rs`.
 -/
 namespace SgModel.CyW
-
-theorem plookup_append (ps P : Props) (p : Nat) :
-    plookup (ps ++ P) p = match plookup ps p with | some v => some v | none => plookup P p := by
-  induction ps with
-  | nil => rfl
-  | cons kv ps ih =>
-    obtain ⟨k, v⟩ := kv
-    simp only [List.cons_append, plookup]
-    split
-    · rfl
-    · exact ih
-
-theorem filterMapV_congr (f f' : V → R (Option V)) (h : ∀ v, f v = f' v) (l : V) :
-    filterMapV f l = filterMapV f' l := by
-  induction l with
-  | cons hd tl _ iht => simp only [filterMapV, h, iht]
-  | _ => rfl
 
 /-- **substitution lemma**: evaluating the substituted expression is evaluating the original
 with the substituted parameters bound (in front of whatever was bound already) -/
@@ -74,105 +57,9 @@ theorem C35_subst_expr_lemma (g : G) (ps P : Props) (e : E) :
           intro v
           simp only [ih2, ih3]
 
-/-- `P'` binds at least what `P` binds, to the same values -/
-def Extends (P P' : Props) : Prop := ∀ p v, plookup P p = some v → plookup P' p = some v
-
-theorem filterMapV_mono (f f' : V → R (Option V)) (h : ∀ v r, f v = .ok r → f' v = .ok r) (l : V) :
-    ∀ out, filterMapV f l = .ok out → filterMapV f' l = .ok out := by
-  induction l with
-  | cons hd tl _ iht =>
-    intro out ho
-    simp only [filterMapV] at ho ⊢
-    obtain ⟨r, hr, ho⟩ := bind_ok ho
-    obtain ⟨rest, hrest, ho⟩ := bind_ok ho
-    rw [h hd r hr, iht rest hrest]
-    exact ho
-  | _ => intro out ho; exact ho
-
 /-- monotonicity: a successful evaluation is unaffected by binding more parameters -/
-theorem eval_mono (g : G) (P P' : Props) (hP : Extends P P') (e : E) :
-    ∀ row v, eval g P row e = .ok v → eval g P' row e = .ok v := by
-  induction e with
-  | lit v => intro row v h; exact h
-  | var x => intro row v h; exact h
-  | prop x k => intro row v h; exact h
-  | param p =>
-    intro row v h
-    simp only [eval] at h ⊢
-    cases hp : plookup P p with
-    | none => rw [hp] at h; cases h
-    | some w => rw [hp] at h; rw [hP p w hp]; exact h
-  | lnil => intro row v h; exact h
-  | mnil => intro row v h; exact h
-  | lcons a b ih1 ih2 =>
-    intro row v h
-    simp only [eval] at h ⊢
-    obtain ⟨x, hx, h⟩ := bind_ok h
-    obtain ⟨y, hy, h⟩ := bind_ok h
-    rw [ih1 row x hx, ih2 row y hy]; exact h
-  | mcons k a b ih1 ih2 =>
-    intro row v h
-    simp only [eval] at h ⊢
-    obtain ⟨x, hx, h⟩ := bind_ok h
-    obtain ⟨y, hy, h⟩ := bind_ok h
-    rw [ih1 row x hx, ih2 row y hy]; exact h
-  | un op a ih =>
-    intro row v h
-    simp only [eval] at h ⊢
-    obtain ⟨x, hx, h⟩ := bind_ok h
-    rw [ih row x hx]; exact h
-  | bin op a b ih1 ih2 =>
-    intro row v h
-    simp only [eval] at h ⊢
-    obtain ⟨x, hx, h⟩ := bind_ok h
-    obtain ⟨y, hy, h⟩ := bind_ok h
-    rw [ih1 row x hx, ih2 row y hy]; exact h
-  | idx a b ih1 ih2 =>
-    intro row v h
-    simp only [eval] at h ⊢
-    obtain ⟨x, hx, h⟩ := bind_ok h
-    obtain ⟨y, hy, h⟩ := bind_ok h
-    rw [ih1 row x hx, ih2 row y hy]; exact h
-  | ite c t e ih1 ih2 ih3 =>
-    intro row v h
-    simp only [eval] at h ⊢
-    obtain ⟨x, hx, h⟩ := bind_ok h
-    rw [ih1 row x hx]
-    simp only [bind, Except.bind]
-    split at h
-    · rename_i hc; rw [if_pos hc]; exact ih2 row v h
-    · rename_i hc; rw [if_neg hc]; exact ih3 row v h
-  | comp x l f m ih1 ih2 ih3 =>
-    intro row v h
-    simp only [eval] at h ⊢
-    obtain ⟨lv, hl, h⟩ := bind_ok h
-    rw [ih1 row lv hl]
-    simp only [bind, Except.bind]
-    split at h
-    · rename_i hc; rw [if_pos hc]; exact h
-    · rename_i hc
-      rw [if_neg hc]
-      split at h
-      · cases h
-      · rename_i hc2
-        rw [if_neg hc2]
-        refine filterMapV_mono _ _ ?_ lv v h
-        intro el r hr
-        obtain ⟨c, hcv, hr⟩ := bind_ok hr
-        rw [ih2 _ c hcv]
-        simp only [bind, Except.bind]
-        split at hr
-        · rename_i hcc
-          rw [if_pos hcc]
-          obtain ⟨mv, hm, hr⟩ := bind_ok hr
-          rw [ih3 _ mv hm]
-          exact hr
-        · rename_i hcc
-          rw [if_neg hcc]
-          exact hr
-
-theorem extends_nil (P : Props) : Extends [] P := by
-  intro p v h; simp [plookup] at h
+theorem C35_eval_monotone_in_params (g : G) (P P' : Props) (hP : Extends P P') (e : E) (row : Row) (v : V)
+    (h : eval g P row e = .ok v) : eval g P' row e = .ok v := eval_mono g P P' hP e row v h
 
 /-- a position `substitute_params` does not visit keeps `$p` and is evaluated with nothing
 bound: it either **errors** or answers exactly what the inlined text answers -/
@@ -215,39 +102,11 @@ theorem C35_missing_in_list_fails_at_eval (g : G) (ps : Props) (row : Row) (p : 
 
 /-! ### "written as a literal" is well defined -/
 
-theorem unescBody_escBody (s rest : List Char) :
-    unescBody (escBody s ++ '\'' :: rest) = some (s, rest) := by
-  induction s with
-  | nil => simp [escBody, unescBody]
-  | cons c cs ih =>
-    simp only [escBody]
-    split
-    · rename_i hc
-      simp only [List.cons_append, unescBody, ih, Option.map_some]
-    · rename_i hc
-      simp only [Bool.or_eq_true, decide_eq_true_eq, not_or] at hc
-      simp only [List.cons_append]
-      rw [unescBody]
-      · simp [hc.1, ih]
-      · intro c' cs' heq _
-        exact hc.2 heq
-
 /-- strings: every code point, quotes and backslashes included -/
 theorem C35_literal_roundtrip_string (s rest : List Char) :
     parseStr (renderStr s ++ rest) = some (s, rest) := by
   simp only [renderStr, List.cons_append, parseStr, List.append_assoc]
   exact unescBody_escBody s rest
-
-theorem valRev_digitsRev (f n : Nat) (h : n < f) : valRev (digitsRev f n) = n := by
-  induction f generalizing n with
-  | zero => omega
-  | succ f ih =>
-    simp only [digitsRev]
-    split
-    · simp [valRev]
-    · simp only [valRev]
-      rw [ih (n / 10) (by omega)]
-      omega
 
 /-- integers, including both `i64` extremes (no bound at all) -/
 theorem C35_literal_roundtrip_int (i : Int) : parseInt (renderInt i) = i := by
